@@ -77,11 +77,13 @@ def run_boundary(ctx, case):
     norms = gm_norm(rhos)
     nrm_arg = (norms if case['batch'] else norms[0]) if case['norm'] else None
     ctx.close(nq.gellmann.dm_to_gellmann_norm(arg), norms if case['batch'] else norms[0], 1e-12, 'Gell-Mann norm = Frobenius norm of the traceless part / sqrt 2')
+    arg_before = arg.copy()
     bl, bu = E.get_density_matrix_boundary(arg, dm_norm=nrm_arg)
     bl, bu = np.atleast_1d(bl), np.atleast_1d(bu)
     ctx.require(bl.shape == (nb,) and bu.shape == (nb,), 'boundary shapes follow the batch')
     pl, pu = E.get_ppt_boundary(arg, dims, dm_norm=nrm_arg, within_dm=case['within'])
     pl, pu = np.atleast_1d(pl), np.atleast_1d(pu)
+    ctx.close(arg, arg_before, 0, 'boundary routines do not modify their input')
     d = 1e-6
     for i in range(nb):
         rho = rhos[i]
